@@ -7,6 +7,7 @@ import (
 	"bufio"
 	"bytes"
 	"context"
+	"crypto/sha256"
 	"encoding/json"
 	"flag"
 	"fmt"
@@ -18,6 +19,7 @@ import (
 
 	cmtmerkle "github.com/cometbft/cometbft/crypto/merkle"
 	cmttypes "github.com/cometbft/cometbft/types"
+	"github.com/oasisprotocol/oasis-core/go/consensus/cometbft/crypto/merkle"
 
 	"github.com/oasisprotocol/oasis-core/go/common/cbor"
 	"github.com/oasisprotocol/oasis-core/go/common/crypto/hash"
@@ -573,6 +575,30 @@ func (x *slRunner) proofEvent(e slEvent, o *slOp, raw, txb []byte, lb *cmttypes.
 	x.proofChecks++
 	x.mu.Unlock()
 	x.emit(e, o, aggKey)
+	// The proof must verify for exactly the bytes it was issued for: the tree is built over transaction digests, so neither the
+	// digest of the transaction nor its leaf hash - handed over as if they were the transaction - may be accepted.
+	d1 := sha256.Sum256(txb)
+	d2 := sha256.Sum256(append([]byte{0}, d1[:]...))
+	for _, it := range []struct {
+		name string
+		item []byte
+	}{{"digest", d1[:]}, {"leafhash", d2[:]}} {
+		var verr error
+		perr := guard(func() { verr = merkle.VerifyTransaction(raw, lb.DataHash, it.item) })
+		x.mu.Lock()
+		x.proofChecks++
+		x.mu.Unlock()
+		if perr == nil && verr != nil {
+			continue
+		}
+		e2 := e
+		e2.Conc, e2.Mode, e2.Altered, e2.Accepted, e2.ProjEq = "proof:"+it.name+"-as-transaction", "bytes", true, perr == nil, false
+		e2.Err, e2.ErrClass, e2.Diff, e2.Class = "", "", []string{"proof.transaction-not-in-block"}, "bound:proof:"+it.name+"-accepted-as-transaction"
+		if perr != nil {
+			e2.Panic = slShort(perr.Error(), 200)
+		}
+		x.emit(e2, o, aggKey)
+	}
 }
 
 // runProofCase: an abstract SubmitTxWithProof case on the synthetic chain (heights as emitted).
